@@ -10,6 +10,8 @@ import (
 	"strings"
 	"testing"
 
+	"github.com/tailscale/setec/audit"
+	"github.com/tailscale/setec/db"
 	"pgregory.net/rapid"
 	"verifharness/dbx"
 	"verifharness/h"
@@ -26,12 +28,17 @@ type ACLCase struct {
 	// further restricted callers (op.Caller 2, 3, 4): two tagged devices (no user identity) and one
 	// node of the SAME user as caller 1 holding a different grant
 	Others [][]model.Rule `json:"others,omitempty"`
+	// from this call on (1-based; 0 = never) the audit device is failing: whatever that does to
+	// calls that are allowed, a call without a grant still reveals and changes nothing
+	AuditDownFrom int `json:"audit_down_from,omitempty"`
 }
 
-var c01Names = []string{"a", "b", "dev/a", "dev/b", "prod/a", "a*", "a\nb", "_internal/x", "", "a", "dev/a", "a ", " dev/a"}
+var c01Names = []string{"a", "b", "dev/a", "dev/b", "prod/a", "a*", "a\nb", "_internal/x", "", "a", "dev/a", "a ", " dev/a", "_internal", "prod/b|a", "b|a"}
 var c01Patterns = []string{"*", "dev/*", "*a", "d*/a", "**", "", "a*", "*/*", "prod/*", "_internal/*", "a\n*", "b",
 	// literal text on both sides of a '*' whose pieces would overlap in an existing name
-	"a*a", "prod/*/a", "dev/*/a", "dev/a*a", "b*b"}
+	"a*a", "prod/*/a", "dev/*/a", "dev/a*a", "b*b",
+	// characters that mean something to a regular expression and nothing to a glob
+	"dev/*|b", "b|a", "(a)", "a+", "[ab]", "dev/.", "a?", "^a$"}
 var c01Actions = []string{"get", "info", "put", "activate", "delete", "get", "info", "list", "Get", "*"}
 var c01Kinds = []string{"put", "activate", "delver", "del", "get", "getver", "cond", "info", "list", "get", "info"}
 
@@ -55,6 +62,9 @@ func genACLCase(rt *rapid.T) ACLCase {
 		for i := 0; i < n; i++ {
 			c.Others = append(c.Others, genRuleSet(rt))
 		}
+	}
+	if rapid.IntRange(0, 4).Draw(rt, "auditdown") == 0 {
+		c.AuditDownFrom = rapid.IntRange(1, 12).Draw(rt, "auditdownfrom")
 	}
 	kinds := c01Kinds
 	if len(c.Others) > 0 {
@@ -107,7 +117,8 @@ func runC01(t *testing.T, c ACLCase) (*h.Violation, h.Info) {
 	var info h.Info
 	dir := caseDir(t)
 	defer os.RemoveAll(dir)
-	d, err := dbx.OpenDiscard(filepath.Join(dir, "db"), dbx.DummyKey())
+	sink := &flakyAudit{}
+	d, err := db.Open(filepath.Join(dir, "db"), dbx.DummyKey(), audit.New(sink))
 	if err != nil {
 		return h.V("harness", "open: %v", err), info
 	}
@@ -176,6 +187,29 @@ func runC01(t *testing.T, c ACLCase) (*h.Violation, h.Info) {
 		}
 		low := callers[op.Caller]
 		ver := tr.Resolve(op)
+		if c.AuditDownFrom > 0 && i+1 >= c.AuditDownFrom {
+			sink.fail = true
+			info.Class("audit-device-down")
+			shadow := tr.Clone()
+			want := shadow.Expect(low.Rules, op, ver)
+			got := tgt.Do(low, op, ver)
+			delivered := got.HasVal || got.Info != nil || (got.IsList && len(got.List) > 0)
+			if want.Class == model.Denied {
+				if got.Class == model.OK || delivered {
+					return h.V("refused-without-grant", "step %d %s by caller %d with rules %+v while the audit device is failing: %s - a call without a grant must reveal and change nothing, whatever else is broken", i, op, op.Caller, low.Rules, got), info
+				}
+			} else if got.Class == model.OK {
+				tr = shadow // it went through (whether it may is C06's business)
+			}
+			d2, err := dbx.OpenDiscard(filepath.Join(dir, "db"), dbx.DummyKey())
+			if err != nil {
+				return h.V("harness", "reopen: %v", err), info
+			}
+			if dump, err := dbx.Dump(d2); err != nil || dbx.DumpDiff(dump, tr.M) != "" {
+				return h.V("denied-call-changes-nothing", "step %d %s by caller %d (outcome %s, model %s) while the audit device is failing: %v %s", i, op, op.Caller, got, want, err, dbx.DumpDiff(dump, tr.M)), info
+			}
+			continue
+		}
 		existed := tr.M[op.Name] != nil
 		before := tr.M.String()
 		want := tr.Expect(low.Rules, op, ver)
@@ -248,10 +282,10 @@ func runC01(t *testing.T, c ACLCase) (*h.Violation, h.Info) {
 
 var c01 = &h.Campaign[ACLCase]{
 	Prop: "C01", Sub: "acl",
-	Rule: "rapid: a superuser pre-history (0-14 mutations) over 9 names (plain, dev/.., prod/.., one containing '*', one containing a newline, _internal/x, empty), a rule set of 0-3 rules (action multisets incl. near-miss strings, 1-3 patterns from exact names and wildcard shapes), then 1-25 calls of every kind by the restricted caller - in one case of three by up to four restricted callers with their own rule sets (two tagged devices, a second node of the first caller's user), with extra list calls; run either on db.DB or through the registered HTTP handlers + setec.Client with a WhoIs table; expected outcome from the ACL model + map model BEFORE the call; every denied call is repeated on an empty twin database and the refusals compared; superuser dump after every call; non-trivial = the scenario has a denied call on an existing secret AND an allowed successful call AND a wildcard pattern; distinct by scenario",
+	Rule:  "rapid: a superuser pre-history (0-14 mutations) over 9 names (plain, dev/.., prod/.., one containing '*', one containing a newline, _internal/x, empty), a rule set of 0-3 rules (action multisets incl. near-miss strings, 1-3 patterns from exact names and wildcard shapes), then 1-25 calls of every kind by the restricted caller - in one case of three by up to four restricted callers with their own rule sets (two tagged devices, a second node of the first caller's user), with extra list calls; run either on db.DB or through the registered HTTP handlers + setec.Client with a WhoIs table; expected outcome from the ACL model + map model BEFORE the call; in one case of five the audit device starts failing at a generated call (refused calls must still reveal and change nothing); every denied call is repeated on an empty twin database and the refusals compared; superuser dump after every call; non-trivial = the scenario has a denied call on an existing secret AND an allowed successful call AND a wildcard pattern; distinct by scenario",
 	Quick: 6000, Thorough: 1000000,
-	Gen:   genACLCase,
-	Run:   runC01,
+	Gen: genACLCase,
+	Run: runC01,
 }
 
 func init() { c01.Register() }
